@@ -335,7 +335,13 @@ func (s *runState) clean(op *Op, prof *Profile) bool {
 	if prof != nil {
 		prof.Counts = append(prof.Counts, counts)
 	}
-	sigShape := fmt.Sprintf("%s|n=%s|prev=%s", op.Kind, s.opSize(op), s.prevClass)
+	// Signature shape: operation kind (rollbacks landing exactly on genesis
+	// marked) and the class of the previous operation; no sizes.
+	sigShape := op.Kind
+	if (op.Kind == OpBR || op.Kind == OpBRL) && op.N == s.m.BTip() {
+		sigShape += "(to-genesis)"
+	}
+	sigShape += "|prev=" + s.prevClass
 	if rule, detail := s.checkResult(op, stamp, err); rule != "" {
 		s.violate(rule, sigShape, detail, nil)
 		return false
@@ -491,6 +497,80 @@ func (s *runState) restore(snapB, snapF []byte) error {
 	return nil
 }
 
+// probeHidden runs after a failed append that left every read equal to the
+// model. If the flat files are byte-identical to before the call there is
+// nothing more to see. If they differ, "the store as it was before the call"
+// is not contradicted by any read yet, so nothing is asserted about the bytes;
+// instead the next operation is demonstrated right away through the public
+// API: one more clean single-header append of the same kind must succeed and
+// read back. Afterwards the probe is undone (the file is given the content a
+// correct append would have produced, the probe is rolled back through the
+// store, the files are put back) so that the remaining positions stay covered.
+func (s *runState) probeHidden(op *Op, sigShape string, extra map[string]any, snapB, snapF []byte) int {
+	r := s.r
+	curB, e1 := s.st.BFile.Snapshot()
+	curF, e2 := s.st.FFile.Snapshot()
+	if e1 != nil || e2 != nil {
+		r.Sink.Inconclusive("harness: snapshot failed")
+		return attemptAbort
+	}
+	if bytes.Equal(curB, snapB) && bytes.Equal(curF, snapF) {
+		return attemptContinue
+	}
+	r.Stats.Add("failed_appends_reads_equal_but_file_bytes_differ", 1)
+	var probe, undo Op
+	switch {
+	case op.Kind == OpBA:
+		g := &gen{rng: s.rng, m: s.m}
+		probe = Op{Kind: OpBA, Blocks: g.newBlocks(1), Note: "probe"}
+		undo = Op{Kind: OpBRL, N: 1}
+	case op.Kind == OpFA && s.m.FTip() < s.m.BTip():
+		var fh chainhash.Hash
+		s.rng.Read(fh[:])
+		probe = Op{Kind: OpFA, Filters: []chainhash.Hash{fh}, FillAll: true, Note: "probe"}
+		undo = Op{Kind: OpFR}
+	default:
+		if s.restore(snapB, snapF) != nil {
+			return attemptAbort
+		}
+		return attemptContinue
+	}
+	r.Stats.Add("next_append_probes", 1)
+	_, err := s.exec(&probe)
+	pre, post := s.m, s.m.Clone()
+	hashes, _ := apply(post, &probe)
+	if err != nil {
+		s.violate("append-after-failed-append-failed", sigShape, err.Error(), extra)
+	} else {
+		ever := append(s.ever[:len(s.ever):len(s.ever)], hashes...)
+		if d := Compare(s.st, post, ever, Scope{Full: true}, s.rng, nil); d != nil {
+			s.violate("append-after-failed-append-broken/"+d.Rule, sigShape, d.Detail, extra)
+		}
+		// Undo: file content of a correct append, then roll the probe
+		// back through the store (exec reads the model for FR's newTip).
+		var uerr error
+		if probe.Kind == OpBA {
+			uerr = s.st.BFile.Restore(append(append([]byte(nil), snapB...), Raw80(&probe.Blocks[0])...))
+		} else {
+			uerr = s.st.FFile.Restore(append(append([]byte(nil), snapF...), probe.Filters[0][:]...))
+		}
+		if uerr == nil {
+			s.m = post
+			_, uerr = s.exec(&undo)
+			s.m = pre
+		}
+		if uerr != nil {
+			r.Stats.Add("histories_abandoned_after_violation", 1)
+			return attemptAbort
+		}
+	}
+	if s.restore(snapB, snapF) != nil || Compare(s.st, s.m, s.ever, Scope{Full: true}, s.rng, nil) != nil {
+		r.Stats.Add("histories_abandoned_after_violation", 1)
+		return attemptAbort
+	}
+	return attemptContinue
+}
+
 // attempt runs op once with plan p armed.
 func (s *runState) attempt(op *Op, p Plan) int {
 	r := s.r
@@ -567,7 +647,7 @@ func (s *runState) attempt(op *Op, p Plan) int {
 		if d == nil {
 			r.Stats.Add("failed_appends_left_store_unchanged", 1)
 			s.prevClass = "failed-append"
-			return attemptContinue
+			return s.probeHidden(op, sigShape, extra, snapB, snapF)
 		}
 		s.violate("failed-append-changed-store/"+d.Rule, sigShape, d.Detail, extra)
 		// Put the flat files back (the harness's own repair, through the
